@@ -3,6 +3,9 @@ import GrVerif.Proofs.LoopBound2
 import GrVerif.Proofs.VmSafe2
 import GrVerif.Proofs.FsmSafe
 import GrVerif.Proofs.CursorShape
+import GrVerif.Proofs.CodeCursor
+import GrVerif.Proofs.MapBound
+import GrVerif.Gen.SlotMap
 import GrVerif.Props.C07
 /-!
 # C02 — shaping any accepted font with any text is safe, terminating and bounded   (partial)
@@ -49,7 +52,9 @@ What the Lean side contributes (model: `Model/Pass.lean`, `Model/Action.lean`, `
   `_out_length - _out_index` from it on), shows that every opcode keeps the relation (`opcode_keeps_cursor_position`), that the
   matcher fills the slot map with consecutive slots of the stream and `testConstraint` only lets a rule through whose last slot is
   in the map (so an action starts with `_out_index = preContext` slots in front and `sort - preContext` from the cursor on), and
-  that the rule loop only ever stands on a slot of the stream (`rule_loop_stands_on_the_stream`).
+  that the rule loop only ever stands on a slot of the stream (`rule_loop_stands_on_the_stream`).  The hypothesis itself is derived
+  from the model of the loader: `loader_accepted_action_passes_cursor_tests` (`Proofs/CodeCursor.lean`) - what `decoder::fetch_opcode`
+  lets through as action code passes `curRun`, the `DELETE` bound being what keeps the loader's `uint16` `_out_length` from wrapping.
   That last invariant did NOT hold in the tree this work started from: `SlotMap::collectGarbage` moved the cursor off a freed
   slot only for the map cells it visits, so an action could hand the deleted former first slot back to the rule loop; a rule
   matching there ran `INSERT; NEXT; ATTR_SET` on an empty stream and dereferenced a null slot (`fix: SlotMap::collectGarbage …`
@@ -188,16 +193,48 @@ theorem garbage_collection_hands_back_a_stream_slot (c : Ctx) (a : Option Nat) {
     ∀ x, (collectGarbage c a).2 = some x → x ∈ l := gc_mem c a h
 
 /-- one step of the rule loop from a slot of the stream ends on a slot of the stream (or at the end), and whatever error it reports
-is not a null-cursor fault -/
+is neither a null-cursor fault nor a write outside the slot map -/
 theorem rule_loop_stands_on_the_stream (p : PassT) (c : Ctx) (slot : Nat) {l : List Nat} (h : JO c l (some slot)) (hs : slot ∈ l)
     (hp : passOK p = true) :
-    (∀ {w : String}, findNDoRule p c slot = .error w → ¬ nullFault w) ∧
+    (∀ {w : String}, findNDoRule p c slot = .error w → ¬ engineFault w) ∧
     (∀ {c' : Ctx} {s' : Option Nat} {st : Status}, findNDoRule p c slot = .ok (c', s', st) → ∃ l', JO c' l' s' ∧ Live l' s') :=
   findNDoRule_safe p c slot h hs hp
 
 /-- **the pipeline, every text, every font whose rule code passed the loader's cursor tests**: no write through a null cursor -/
 theorem no_write_through_a_null_cursor (font : Font) (hf : fontOK font = true) (text : List Nat) (fuel : Nat) (dir : Nat) {w : String}
-    (e : shape font text fuel dir = .error w) : ¬ nullFault w := shape_noNullCursor font hf text fuel dir e
+    (e : shape font text fuel dir = .error w) : ¬ nullFault w := fun h => shape_noNullCursor font hf text fuel dir e (.inl h)
+
+/-- every opcode keeps the `map` register on a cell of the slot map: `0 ≤ map ≤ m_size + 1`, in an array of `m_size + 2` cells or more -/
+theorem every_opcode_keeps_map_inside : OpsPreserve MB := ops_MB
+
+/-- a whole action, any code: started with the `map` register inside the map, neither `temp_copy` nor the write-back `*map = is` of
+`Machine::run` writes outside `m_slot_map` -/
+theorem action_never_leaves_the_slot_map {is : List Instr} {dl : Bool} {mr : Nat} {data : List Nat} {ctx : Ctx} (hm : MB (enterCtx (startCtx ctx)))
+    {w : String} (e : doAction is dl mr data ctx = .error w) : ¬ mapFault w := doAction_noMapFault hm e
+
+/-- the matcher leaves `m_size ≤ MAX_SLOTS` cells in use, in an array of `MAX_SLOTS + 2` -/
+theorem matcher_leaves_room_in_the_slot_map (p : PassT) (c : Ctx) (slot : Nat) :
+    (runFSM p c slot).2.1.size + 2 ≤ (runFSM p c slot).2.1.smap.size := runFSM_size p c slot
+
+/-- the tie to the source: the model's `MAX_SLOTS` and the `MAX_SLOTS + 2` cells of its slot map are the numbers regenerated from
+`src/inc/Rule.h` on every run (`Gen/SlotMap.lean`; the translator also checks the matcher's budget and the test of `next`).  An array
+of `MAX_SLOTS + 1` cells - the pinned tree - makes this line fail: `matcher_leaves_room_in_the_slot_map` is then no longer about the code. -/
+example : Pass.MAX_SLOTS = Gen.SlotMap.MAX_SLOTS ∧ Pass.MAX_SLOTS + 2 = Gen.SlotMap.slotMapCells := by decide
+
+/-- **the pipeline, every text, every font whose rule code passed the loader's cursor tests**: the `map` register never leaves
+`m_slot_map[MAX_SLOTS + 2]` (the array of the repaired `Rule.h`; with the pinned `MAX_SLOTS + 1` cells a rule of 63 slots wrote one past it) -/
+theorem map_register_stays_inside_the_slot_map (font : Font) (hf : fontOK font = true) (text : List Nat) (fuel : Nat) (dir : Nat) {w : String}
+    (e : shape font text fuel dir = .error w) : ¬ mapFault w := fun h => shape_noNullCursor font hf text fuel dir e (.inr h)
+
+/-- **the hypothesis comes from the loader**: action code that `Machine::Code`'s loading constructor (as modelled in `Model/CodeLoad`,
+tied to the real loader by the C01 correspondence) accepts passes the cursor tests from `(pre_context, rule_length)`, and is flagged
+`deletes` whenever they have seen a `DELETE`.  (Constraint code cannot contain any of the opcodes the tests look at: the opcode table
+marks them action-only.)  The instruction list here is the loader model's; the pipeline model decodes the same bytes with `mkCode`, and
+the driver compares the two lists on every program of the `cursor_hypothesis` stage (`same=`). -/
+theorem loader_accepted_action_passes_cursor_tests (l : CodeLoad.Limits) (pt : Nat) (bc : List Nat) (p : CodeLoad.Loaded) (hrl : l.ruleLength < 65536)
+    (h : CodeLoad.load l false pt bc = .ok (.ok (some p))) :
+    ∃ cur', curRun ⟨l.preContext, l.ruleLength, false⟩ p.instrs = some cur' ∧ (cur'.dels = true → p.delete = true) :=
+  CodeLoad.accepted_action_passes_cursor_tests l pt bc p hrl h
 
 /-! non-vacuity: the jump font above meets the hypothesis.  At the level of one action the hypothesis is what stands between the
 machine and the null pointer: on a one-slot stream the code `next; put_glyph` (`_out_index = 1 = _out_length` at the `put_glyph`:
